@@ -22,7 +22,7 @@ def meta(ch, carrier, salt, method):
     return '%s(method(%s))' % (carrier, method) if salt % 2 else '%s(method = "%s")' % (carrier, method)
 
 
-def build(shape, assign, cfg, ctx='alone', small_domain=False):
+def build(shape, assign, cfg, ctx='alone', small_domain=False, repr=None, discr=None):
     """cfg: 'H' Hash only; 'HP' Hash + PartialEq with the same ignore/method choices"""
     tys, fattrs, doms = [], [], []
     salt = 0
@@ -49,7 +49,7 @@ def build(shape, assign, cfg, ctx='alone', small_domain=False):
         derives = 'Educe'
     else:
         derives = 'Educe, Debug'
-    src = S.render_type(shape, ['#[educe(%s)]' % traits], tys, fattrs, derives=derives)
+    src = S.render_type(shape, ['#[educe(%s)]' % traits], tys, fattrs, derives=derives, discr=discr, pre_attrs=(['#[repr(%s)]' % repr] if repr else []))
     vals = S.all_values(shape, doms)
     src += 'fn values() -> Vec<Ty> {\n    vec![\n%s    ]\n}\n' % ''.join('        %s,\n' % v for v in vals)
     arms = []
@@ -69,7 +69,7 @@ def build(shape, assign, cfg, ctx='alone', small_domain=False):
     src += 'pub fn check(r: &mut Rep) {\n    let vs = values();\n    hash_check(r, &vs, &info, %s, %s);\n}\n' % (
         'Some(&|a: &Ty, b: &Ty| a == b)' if cfg == 'HP' else 'None', 'true' if shape.kind == 'struct' else 'false')
     depth = sum(1 for a in assign for ch in a if ch != 'c') + (cfg == 'HP') + (ctx != 'alone')
-    key = 'C05|%s|%s|%s%s' % (cfg, shape.code(), ','.join(assign), '' if ctx == 'alone' else '|' + ctx)
+    key = 'C05|%s|%s|%s%s%s%s' % (cfg, shape.code(), ','.join(assign), '' if ctx == 'alone' else '|' + ctx, '|repr(%s)' % repr if repr else '', '|d=%s' % ','.join('_' if d is None else str(d) for d in discr) if discr else '')
     return Case(key, src, {'cfg': cfg, 'shape': shape.code(), 'assign': list(assign), 'ctx': ctx, 'values': len(vals)},
                 expect='accept', run=True, depth=depth)
 
@@ -84,6 +84,24 @@ def generate(tier):
         for assign in assignments(sh, 'cimx' if sum(f.n for f in sh.variants) <= 2 else 'cim'):
             for cfg in ('H', 'HP'):
                 cases.append(build(sh, assign, cfg))
+    # explicit discriminants (which must not leak into the variant tag in a way that merges variants) and #[repr]
+    U, T1, N1 = S.Fields('u'), S.Fields('t', 1), S.Fields('n', 1)
+    for vs in ([U, U, U, U], [U, U, U], [T1, U, N1, U], [U, T1, N1]):
+        sh = S.Shape('enum', vs)
+        unit_only = all(f.style == 'u' for f in vs)
+        n = len(vs)
+        pats = [[1] + [None] * (n - 1), [None] * (n - 1) + [0], [2, None, 0, None][:n], [n - 1 - i for i in range(n)], [None, 0] + [None] * (n - 2), [3, None, 1, None][:n], [10, 0, None, None][:n]]
+        for d in pats:
+            from .c04 import resolve
+            if len(set(resolve(d))) != n:
+                continue
+            for repr in ((None, 'u8', 'C, u8') if unit_only else ('u8', 'i16')):
+                for assign in assignments(sh, 'cim') if not unit_only else [tuple('' for _ in vs)]:
+                    cases.append(build(sh, assign, 'H', repr=repr, discr=d))
+    for sh in (S.Shape('struct', [S.Fields('n', 2)]), S.Shape('struct', [S.Fields('t', 3)]), S.Shape('enum', [T1, N1])):
+        for repr in ('C', 'packed', 'C, packed(2)', 'align(8)') if sh.kind == 'struct' else ('C', 'u8', 'align(4)'):
+            for assign in assignments(sh, 'cim'):
+                cases.append(build(sh, assign, 'HP', repr=repr))
     for sh in WIDE:
         for assign in assignments_k(sh, 'cimx', 2 if tier == 'quick' else 3):
             cases.append(build(sh, assign, 'HP' if len(assign) % 2 else 'H', small_domain=True))
